@@ -197,3 +197,34 @@ Print Assumptions in_domain_served_variants.
 Print Assumptions every_setting_backs.
 Print Assumptions readonly_over_any_cache.
 Print Assumptions checked_session_over_any_cache.
+
+(** ** the calls as they are really made (Io_methods.v): each read and write through the method of
+    the buffered file the crate's [VarFile] forwards it to, each seek through any [SeekFrom]
+    arriving at the logged position - inside the guards the correspondence runs check on the real
+    trace ([read_guard], [write_guard]) - are served by any cache with the results of the flat
+    file, up to the byte count a partial [write] reports *)
+From Aby Require Import Io_methods.
+
+Theorem in_domain_served_as_made s s' : in_domain s s' ->
+  exists (cf : fid -> list call),
+    forall f c fuel ops', backs c (get_file s f) ->
+      made_via_all (k_cs c) (flat_of (get_file s f)) (cf f) ops' ->
+      (xrun_fuel (k_cs c) (flat_of (get_file s f)) (map call_op (cf f)) <= fuel)%nat ->
+      exists c' outs',
+        crun fuel c ops' = Ok (c', outs') /\
+        map norm_out outs' = map norm_out (touts (flat_of (get_file s f)) (cf f)) /\
+        cache_invx c' /\ R c' (flat_of (get_file s' f)) /\
+        exists c'', flush c' = Ok c'' /\ k_disk c'' = fb (get_file s' f).
+Proof.
+  intros (cf & evs & _ & _ & _ & Hok & _ & Hx).
+  exists cf. intros f c fuel ops' (I & HR & Hcs) Hm Hfuel.
+  pose proof (Hx f) as Hxf. rewrite <- Hcs in Hxf.
+  pose proof (Hok f) as Hokf. rewrite <- Hcs in Hokf.
+  pose proof (made_via_all_same_calls _ _ _ _ Hokf Hm) as Hs.
+  destruct (cache_refines_xflat_variants _ ops' fuel c _ _ _ I HR Hs Hxf Hfuel)
+    as (c' & outs' & Ec & Hn & I' & R' & _ & c'' & Ef & Hd).
+  exists c', outs'. split; [exact Ec|]. split; [exact Hn|]. split; [exact I'|]. split; [exact R'|].
+  exists c''. split; [exact Ef|exact Hd].
+Qed.
+
+Print Assumptions in_domain_served_as_made.
